@@ -48,6 +48,9 @@ def avoid_for(codec, mods=None):
         # DER removes trailing zero bits of named-bit strings; the decoder does not pad the value back up to a
         # SIZE lower bound, so the decoded value fails the constraints check (known_findings/C01.json)
         return {'named_bits_with_size'}
+    if codec == 'jer':
+        # BIT STRING (SIZE (n, ...)) is written without its length (known_findings/C02.json, C02-jer-bits-fixed-size-ext)
+        return {'bits_fixed_ext_outside'}
     return {'int_ext_open', 'alpha1', 'group_zero_width'} if codec == 'oer' else set()
 
 
